@@ -113,7 +113,7 @@ def _candidates(plan):
                     s2["tasks"] = keep
                     del s2["aggs"][a]
                     yield f"drop aggregator {a} of {i}.{j}", c
-            for flag in ("decoy", "main_stat", "recreate", "continue_file", "spelling"):
+            for flag in ("decoy", "main_stat", "recreate", "continue_file", "spelling", "isolated"):
                 if sess.get(flag):
                     c = P(plan)
                     c["phases"][i]["sessions"][j].pop(flag)
